@@ -152,7 +152,7 @@ def put(self, packet):
     alpha = 2 ** (-self.weight_factor)
     self.average_queue_size = self.average_queue_size * (1 - alpha) + cur * alpha
     avg = self.average_queue_size
-    if avg >= self.qlimit:
+    if self.qlimit is not None and avg >= self.qlimit:
         drop = True
     elif avg >= self.max_threshold:
         drop = random.uniform(0, 1) <= self.max_probability
@@ -338,7 +338,7 @@ def run(self, env):
         commit = min(self.cbs, self.current_bucket_commit + self.cir * (t0 - self.update_time) / 8)
         self.current_bucket_commit = commit
         if self.pir:
-            assert self.pbs
+            assert self.pbs is not None
             peak = min(self.pbs, self.current_bucket_peak + self.pir * (t0 - self.update_time) / 8)
             self.current_bucket_peak = peak
         self.update_time = t0
@@ -346,6 +346,7 @@ def run(self, env):
             if packet.size > peak:
                 yield env.timeout((packet.size - peak) * 8 / self.pir)
                 self.current_bucket_peak = 0
+                self.current_bucket_commit = min(self.cbs, commit + self.cir * (env.now - t0) / 8)
                 packet.color = "red"
                 self.update_time = env.now
             elif packet.size > commit:
@@ -526,7 +527,8 @@ def put(self, packet):
         self.ends[flow_id].put(packet)
     else:
         try:
-            assert self.outs
+            if not self.outs:
+                raise IndexError()
             self.outs[self._fib[flow_id]].put(packet)
         except (KeyError, IndexError, ValueError) as exc:
             if self.default_out:
